@@ -28,6 +28,7 @@ package smf
 //@ ensures [H] rd.sfault == nil ==> old(rd.sfault) == nil
 //@ ensures [H] err != nil && rd.sfault == nil ==> (err == io.EOF && rd.spos == rd.sn)
 //@ ensures [H] err == nil || err == io.EOF || int(err) > 1000
+//@ ensures [H] old(rd.sgreedy) && old(rd.sfault) == nil ==> rd.sfault == nil
 
 // ---------------------------------------------------------------- header chunk
 //@ func parseTimeCode
@@ -50,6 +51,7 @@ package smf
 //@ ensures [H] reader.sfault == nil ==> old(reader.sfault) == nil
 //@ ensures [H] result != nil && result != io.EOF && reader.sfault == nil ==> result == errUnsupportedSMFFormat
 //@ ensures [H] result != ErrFinished
+//@ ensures [H] old(reader.sgreedy) && old(reader.sfault) == nil ==> reader.sfault == nil
 
 // representation invariant of a reader
 //@ macro rrs(r) = asptr(r.runningStatus, runningstatus.smfreader).reader.status
@@ -73,6 +75,7 @@ package smf
 //@ ensures [H] old(r.input.spos) <= r.input.spos && r.input.spos <= r.input.sn
 //@ ensures [H] r.input.sfault == nil ==> old(r.input.sfault) == nil
 //@ ensures [H] err != ErrFinished
+//@ ensures [H] old(r.input.sgreedy) && old(r.input.sfault) == nil ==> r.input.sfault == nil
 
 // track bookkeeping: pt = index of the track being read (-1 before the first), nt = number of tracks announced
 //@ macro pt(r) = int(r.processedTracks)
